@@ -543,7 +543,7 @@ func checkExitRegion(e *Env, p *load.Program, key string, from, fail *ssa.BasicB
 		if nr, dead := g.NoRet[b]; dead {
 			exits++
 			if bad := zeroExit(nr, 0); bad != nil {
-				r.Bad("E3.exit", key+"/status", p.Pos(bad.Pos()), "os.Exit is called with status 0 (or a non-constant) on a failure edge")
+				r.Bad("E3.exit", key+"/status", p.Pos(bad.Pos()), "os.Exit is called with a status whose low eight bits are 0 (the parent sees success), or with a non-constant, on a failure edge")
 				ok = false
 			}
 			continue
@@ -554,7 +554,7 @@ func checkExitRegion(e *Env, p *load.Program, key string, from, fail *ssa.BasicB
 				if exitByReturn != nil && from.Parent() == exitByReturn && len(flow.RetResults(ret)) == 1 {
 					// the returned value is the exit status
 					k, isK := flow.ConstInt(flow.RetResults(ret)[0])
-					if isK && k != 0 {
+					if isK && !statusIsZero(k) {
 						exits++
 						continue
 					}
@@ -594,13 +594,17 @@ func checkExitRegion(e *Env, p *load.Program, key string, from, fail *ssa.BasicB
 
 // zeroExit: the never-returning call can end the process with status 0 (os.Exit(0) or a non-constant status), directly or
 // inside a helper of the module; returns the offending call.
+//
+// statusIsZero: the parent of a process sees the low eight bits of the value handed to exit(2): os.Exit(256) is "success".
+func statusIsZero(k int64) bool { return k&0xff == 0 }
+
 func zeroExit(nr ssa.CallInstruction, depth int) ssa.CallInstruction {
 	if depth > 4 {
 		return nr
 	}
 	if flow.CalleeIs(nr, "os", "Exit") || flow.CalleeIs(nr, "syscall", "Exit") {
 		k, isK := flow.ConstInt(nr.Common().Args[0])
-		if !isK || k == 0 {
+		if !isK || statusIsZero(k) {
 			return nr
 		}
 		return nil
